@@ -140,6 +140,12 @@ Section CheckMspSound.
       + right. apply O'. exists read, out, i. auto.
   Qed.
 
+  Lemma check_tiling_sound l : check_tiling k rcmode l = true -> 1 <= k /\ Forall (read_ok k) l.
+  Proof.
+    unfold check_tiling. intro H. apply andb_prop in H as [H1 H2]. apply Nat.leb_le in H1. split; [exact H1|].
+    destruct (all_obs k rcmode l) as [obs|] eqn:E; [|discriminate]. exact (proj1 (all_obs_sound l obs E)).
+  Qed.
+
   Lemma functional_sound obs : functional obs = true ->
     forall x b c, In (x, b) obs -> In (x, c) obs -> b = c.
   Proof.
